@@ -12,6 +12,10 @@ Reply per point: the model's exact values and the tolerance verdicts; `blocks` (
 indices each worker thread handled (C18_blocks); `batch_rows` = the vectorised batch model agrees with the
 per-row model (C18_batch).
 
+Optional `"env":{"backend":null|"threading"|"loky"|"multiprocessing"|"sequential","n_jobs":null|k (negative: counted from the CPUs),"cpus":c}` and `"n_jobs":null|k`
+(the joblib context around the call and the forest's `n_jobs`): reply `env` = `resolve codeHints` (backend, `n_eff`,
+`in_caller`, `shared`) and `env_indep` = the three forms under that environment equal the context-free forms (C18_env).
+
 `{"op":"acq","minvar":r,"tolv":r,"points":[{"trees":[..],"used_plain":r,"used_d":r},..]}`: the std read by
 the plain / `d` acquisitions (observed as `-LCB(kappa="inf")`, `-LCBd(kappa="inf")`) against `acqMoments`.
 -/
@@ -23,7 +27,27 @@ def jPair (j : Json) : Except String (Rat × Rat) := do
   | [a, b] => return (a, b)
   | _ => throw "expected [mean, var]"
 
-def point (minVar tolv tolm : Rat) (order : List Nat) (blocks : Option (List (List Nat))) (j : Json) :
+def jOpt {α} (f : Json → Except String α) (j : Json) : Except String (Option α) :=
+  match j with
+  | .null => pure none
+  | _ => (f j).map some
+
+def jBackend (j : Json) : Except String Backend := do
+  match ← j.getStr? with
+  | "sequential" => return .sequential
+  | "threading" => return .threading
+  | "loky" => return .loky
+  | "multiprocessing" => return .multiprocessing
+  | s => throw s!"unknown joblib backend {s}"
+
+def backendName : Backend → String
+  | .sequential => "sequential"
+  | .threading => "threading"
+  | .loky => "loky"
+  | .multiprocessing => "multiprocessing"
+
+def point (minVar tolv tolm : Rat) (order : List Nat) (blocks : Option (List (List Nat)))
+    (env : Option (Nat × Ambient × Option Int)) (j : Json) :
     Except String (Json × List TreeOut × Option (Rat × StdOut × DisOut)) := do
   let trees ← jList jPair (← field j "trees")
   let got ← jList jRat (← field j "got")
@@ -42,6 +66,12 @@ def point (minVar tolv tolm : Rat) (order : List Nat) (blocks : Option (List (Li
           predictDisBlocks minVar trees bs == some d
     -- C18_floor on the model's own values
     let floorOk := decide (minVar ≤ d.al) && decide (minVar ≤ s.var) && decide (rmax (rawAl trees) minVar ≤ d.al)
+    -- C18_env: inside the observed joblib context, with the forest's n_jobs, the forms are the context-free forms
+    let envOk := match env with
+      | none => true
+      | some (cpus, a, nj) => predictMeanEnv cpus codeHints a nj trees order == some m &&
+          predictStdEnv cpus codeHints a nj minVar trees order == some s &&
+          predictDisEnv cpus codeHints a nj minVar trees order == some d
     return (Json.mkObj [
       ("mean", ofRat m), ("var", ofRat s.var), ("al", ofRat d.al), ("ep", ofRat d.ep),
       ("scale", ofRat scale),
@@ -50,6 +80,7 @@ def point (minVar tolv tolm : Rat) (order : List Nat) (blocks : Option (List (Li
       ("order_indep", orderIndep),
       ("blocks_indep", blocksOk),
       ("floor_law", floorOk),
+      ("env_indep", envOk),
       ("mean_ok", ofBools [closeTo tolm am g0 m, closeTo tolm am g1 m, closeTo tolm am g2 m]),
       ("var_ok", closeTo tolv scale (gsd * gsd) s.var),
       ("al_ok", closeTo tolv scale (gal * gal) d.al),
@@ -100,9 +131,23 @@ def handle (j : Json) : Except String Json := do
     let blocks ← match j.getObjVal? "blocks" with
       | .ok b => (jList (jList jNat) b).map some
       | .error _ => pure none
-    let res ← jList (point minVar tolv tolm order blocks) (← field j "points")
+    let env ← match j.getObjVal? "env" with
+      | .ok e => do
+        let b ← jOpt jBackend (fieldD e "backend" .null)
+        let cj ← jOpt jInt (fieldD e "n_jobs" .null)
+        let nj ← jOpt jInt (fieldD j "n_jobs" .null)
+        let cpus ← jNat (← field e "cpus")
+        pure (some (cpus, (⟨b, cj⟩ : Ambient), nj))
+      | .error _ => pure none
+    let res ← jList (point minVar tolv tolm order blocks env) (← field j "points")
     let bok ← batchOk minVar order (res.map (·.2.1)) (res.filterMap (·.2.2))
-    return Json.mkObj [("ok", true), ("batch_rows", bok), ("points", Json.arr (res.map (·.1)).toArray)]
+    let envJ := match env with
+      | none => Json.null
+      | some (cpus, a, nj) =>
+        let r := resolve cpus codeHints a nj
+        Json.mkObj [("backend", backendName r.backend), ("n_eff", Json.num (JsonNumber.fromNat r.nEff)),
+          ("in_caller", r.inCaller), ("shared", r.shared)]
+    return Json.mkObj [("ok", true), ("batch_rows", bok), ("env", envJ), ("points", Json.arr (res.map (·.1)).toArray)]
   | "acq" =>
     let minVar ← jRat (← field j "minvar")
     let tolv ← jRat (← field j "tolv")
